@@ -17,17 +17,29 @@ RULE = ('every statement form x {filter, event, inbox, console} x {marker probe,
         'native callbacks}; every UNSAFE live function as callback of every callback-taking safe Array method through GetFilterTargets '
         '(without and with a permission filter) and event filters; every live type as constructor; every no_user_view field of every '
         'type with a live object, dotted and as bare identifier after `using <object>`; hidden globals. '
+        'PURITY: every function registered side-effect-free x every argument position and `this` x 28 live shared containers/objects (unsorted / '
+        'duplicate / nested / empty / length-1 arrays, arrays of dictionaries and of arrays, dictionaries, namespaces, config objects, a type, a '
+        'function, a reference, as attributes of the Host - vars.*, groups - and as globals) x fillers for the other positions, every '
+        'callback-taking method x native callbacks (incl. union/intersection applied to the elements), in filter/console/event/inbox mode under '
+        'deep snapshots (any difference = changed:call:<name>). HIDDEN VIA NATIVES: every side-effect-free function x every position x {ApiUser '
+        'object, reference to .password/.password_hash, containers of them}: result handed back through the console (raw and JSON) or compared '
+        'with the secret inside filter/event filters. '
         'marker probe = the sub-expression that is evaluated right after the sandbox test is a call of `sbmark()`, a function the harness registers '
         'side-effect-free and that sets a flag, so "marker reached" vs "stopped before" is read from that flag, never from error text. non-trivial = the probe reached the '
         'interpreter (compiled) and produced a verdict or executed; distinct = distinct probe text')
 TRUSTED = ['model: coq/Sandbox/SbModel.v (effect-level semantics, one constructor per Expression subclass; the values computed by '
-           'operators and pure builtins are inputs); the model\'s own classification pure/mutating/higher-order of every builtin (sb_pure_names)',
+           'operators and pure builtins are inputs); whether a native may write what its receiver/arguments reach comes from the regenerated '
+           'mutation-capability facts (f_sb_purity), the hand-written lists sb_pure_names/sb_higher_names are only the EXPECTED table',
+           'tools/c19_purity.py: token-level, flow-insensitive alias analysis of the C++ bodies of registered functions; trusted tables READ_METHODS '
+           '(cross-checked: declared const in the headers, own bodies analysed), PURE_CALLEES (by name: Utility::Match, JsonEncode, Array::FromSet, '
+           'ConfigItem::GetItems, std:: algorithms, ...), FRESH_METHODS; declarations recognised syntactically; macros not expanded; implicit '
+           'conversions (Value -> String) not seen; self-test of 5 pure and 19 mutating idioms on every run',
            'source facts re-extracted each run by tools/facts_c19.py (regular expressions over expression.cpp, vmops.hpp, *-script.cpp, '
            'REGISTER_*FUNCTION, *.ti, object.cpp, reference.cpp, scriptframe.cpp, filterutility/eventqueue/consolehandler.cpp) -> coq/Facts/Facts_c19.v',
            'harness/ops_sb.cpp: deep snapshot (global namespace recursively, all fields of all config objects, config item registry, '
            'apply rules, type prototypes, scratch directory listing+SHA1, console session locals)']
-ASSUMPTIONS = ['native functions registered side-effect-free behave as the model classifies them (pure): established only behaviourally, '
-               'by executing each of them in sandboxed frames with snapshots',
+ASSUMPTIONS = ['native functions registered side-effect-free are pure: established by the source analysis (sound only relative to its trusted '
+               'tables, see TRUSTED) and behaviourally by executing each of them with live shared containers in every position under snapshots',
                'termination / resource use of sandboxed code is not part of C19 (While/For guards are recorded as facts only)',
                'the process environment (getenv) and the clock are not "attributes hidden from API users"']
 
@@ -162,7 +174,7 @@ FILLERS = ['[ 2, 1 ]', '"a"', '1', '@SAME']
 CB1 = ['string', 'bool', 'len', 'typeof', 'keys', 'Json.encode', 'number', 'get_objects', 'union', 'intersection']
 CB2 = ['match', 'Math.max', 'Math.min', 'union', 'intersection', 'regex', 'cidr_match', 'Math.pow']
 RECV_BY_TYPE = {'Array': ['Array'], 'Dictionary': ['Dictionary'], 'Namespace': ['Namespace'], 'String': ['String'],
-                'Object': ['Array', 'Dictionary', 'Namespace', 'Host', 'ApiUser', 'Type', 'Function', 'Reference', 'String'],
+                'Object': ['Array', 'Dictionary', 'Namespace', 'Host', 'ApiUser', 'ApiListener', 'Type', 'Function', 'Reference', 'String'],
                 'Reference': ['Reference'], 'Number': [], 'Boolean': []}
 LIT_RECV = {'String': ['"b,a c"', '""'], 'Number': ['(42)'], 'Boolean': ['true'], 'Array': ['[ 3, 1, 2 ]'], 'Dictionary': ['{ b = 1, a = 2 }']}
 PURITY_MODES = ['filter', 'console', 'filter', 'console', 'event', 'console', 'filter', 'inbox']
@@ -255,8 +267,10 @@ def purity_probes(fn, rnd, tier, fns):
 USER = 'get_object(ApiUser, "sbu")'
 SECRET_ARGS = [('ApiUser', USER), ('Reference', '(&%s.password)' % USER), ('Array', '[ %s ]' % USER),
                ('Dictionary', '{ u = %s }' % USER), ('Array', '[ &%s.password ]' % USER), ('Array', 'get_objects(ApiUser)'),
-               ('Reference', '(&%s.password_hash)' % USER)]
-SECRET_PAT = '"*sbSECRETpw*"'
+               ('Reference', '(&%s.password_hash)' % USER),
+               ('ApiListener', 'get_object(ApiListener, "sbapi")'), ('Reference', '(&get_object(ApiListener, "sbapi").ticket_salt)'),
+               ('Array', '[ &get_object(ApiListener, "sbapi").ticket_salt, get_object(ApiListener, "sbapi") ]')]
+SECRET_PAT = '"*sbS*"'          # matches the password (sbSECRETpw) and the ticket salt field (sbSALTfld)
 
 
 def hidden_native_probes(fn, rnd, tier, fns):
@@ -307,7 +321,7 @@ def hidden_native_probes(fn, rnd, tier, fns):
         if form in (2, -1):
             out.append(('filter', 'match(%s, Json.encode(%s))' % (SECRET_PAT, call), desc, 1))
         if form in (3, -1):
-            out.append((('event', 'filter', 'inbox')[i % 3], '(%s) == "sbSECRETpw"' % call, desc, 1))
+            out.append((('event', 'filter', 'inbox')[i % 3], '(%s) in [ "sbSECRETpw", "sbSALTfld" ]' % call, desc, 1))
     return out
 
 
@@ -456,8 +470,8 @@ def generate(seed, tier):
     lines = []
     k = 0
     # what the property names explicitly is probed whether or not the live type still flags it
-    for ty, fld in (('ApiUser', 'password'),):
-        if not any(h['type'] == ty and h['field'] == fld for h in hidden):
+    for ty, fld in (('ApiUser', 'password'), ('ApiListener', 'ticket_salt')):
+        if ty in objs and not any(h['type'] == ty and h['field'] == fld for h in hidden):
             hidden = hidden + [{'type': ty, 'field': fld, 'live': 1}]
     for h in hidden:
         if not h['live'] or h['type'] not in objs:
@@ -469,11 +483,12 @@ def generate(seed, tier):
             lines.append(probe(k, mode, 1, '[ %s.%s, %s ]' % (ox, h['field'], M), desc))
         k += 1
         lines.append(probe(k, 'console', 0, '%s.%s' % (ox, h['field']), desc))
-        if h['field'] == 'password':
+        if h['field'] in ('password', 'ticket_salt'):
+            secret = 'sbSECRETpw' if h['field'] == 'password' else 'sbSALTfld'
             for mode in ('filter', 'event'):
                 k += 1
-                lines.append(probe(k, mode, 0, '%s.password == "sbSECRETpw"' % ox, desc, leak=1))
-            for code in ('(&%s.password).get()' % ox, '*(&%s.password)' % ox, 'Json.encode(%s)' % ox, 'string(%s)' % ox,
+                lines.append(probe(k, mode, 0, '%s.%s == "%s"' % (ox, h['field'], secret), desc, leak=1))
+            for code in ('(&%s.%s).get()' % (ox, h['field']), '*(&%s.%s)' % (ox, h['field']), 'Json.encode(%s)' % ox, 'string(%s)' % ox,
                          '%s.to_string()' % ox, 'keys(%s)' % ox, '%s.clone()' % ox):
                 k += 1
                 lines.append(probe(k, 'console', 0, code, desc))
@@ -493,12 +508,13 @@ def generate(seed, tier):
             lines.append(probe(k, mode, 1, 'using %s\n[ %s, %s ].len()' % (ox, h['field'], M), desc))
         k += 1
         lines.append(probe(k, 'console', 0, 'using %s\n%s' % (ox, h['field']), desc))
-        if h['field'] == 'password':
+        if h['field'] in ('password', 'ticket_salt'):
+            secret = 'sbSECRETpw' if h['field'] == 'password' else 'sbSALTfld'
             for mode in ('filter', 'filterperm', 'event'):
                 k += 1
-                lines.append(probe(k, mode, 0, 'using %s\npassword == "sbSECRETpw"' % ox, desc, leak=1))
+                lines.append(probe(k, mode, 0, 'using %s\n%s == "%s"' % (ox, h['field'], secret), desc, leak=1))
                 k += 1
-                lines.append(probe(k, mode, 0, 'using %s\nmatch("sbSECRET*", password)' % ox, desc, leak=1))
+                lines.append(probe(k, mode, 0, 'using %s\nmatch("%s*", %s)' % (ox, secret[:6], h['field']), desc, leak=1))
     # controls: `using` does resolve bare identifiers of a live object (a visible field is readable)
     for ty, fld in (('Host', 'address'), ('ApiUser', 'permissions')):
         if ty in objs:
@@ -611,6 +627,30 @@ def extra_stats(cases, impl):
                 st['live_functions'] += 1
                 if ' safe=1' in l:
                     st['live_functions_safe'] += 1
+    # purity probes: per safe function, the positions (s = this, 0.. = argument) at which a live shared container was handed in
+    # and the call returned normally in a mode where that is observable
+    pos_ok, pos_all = collections.defaultdict(set), collections.defaultdict(set)
+    for c in cases:
+        fam = c['tags'].get('family')
+        if fam not in ('purity', 'hidden-via-native'):
+            continue
+        il = [l for l in impl.get(c['id'], []) if l.startswith('sb_probe')]
+        pl = [l for l in c['lines'] if l.startswith('sb_probe')]
+        for p, l in zip(pl, il):
+            st['%s_probes' % fam.replace('-', '_')] += 1
+            ok = 'i_res=ok' in l and ' mode=event ' not in l and ' mode=inbox ' not in l
+            if ok:
+                st['%s_returned_ok' % fam.replace('-', '_')] += 1
+            if fam == 'purity':
+                sh = [t for t in p.split() if t.startswith('shpos=')]
+                for q in (sh[0][6:].split(',') if sh else []):
+                    if q and q != '-':
+                        pos_all[c['tags']['fn']].add(q)
+                        if ok:
+                            pos_ok[c['tags']['fn']].add(q)
+    st['purity_function_positions_probed'] = sum(len(v) for v in pos_all.values())
+    st['purity_function_positions_with_successful_call'] = sum(len(v) for v in pos_ok.values())
+    st['purity_functions_without_successful_call_on_live_container'] = sorted(f for f in pos_all if not pos_ok[f])
     safe_fns = {c['tags']['fn'] for c in cases if c['tags'].get('family') == 'function-call' and c['tags'].get('safe')}
     st['safe_functions'] = len(safe_fns)
     st['safe_functions_without_successful_execution'] = sorted(safe_fns - fns_ok)
